@@ -56,7 +56,8 @@ fn copy_tree(from: &std::path::Path, to: &std::path::Path) {
 struct Node {
     system: SharedSystem,
     addr: String,
-    conns: HashMap<u32, TcpClient>,
+    conns: HashMap<u32, iggy::clients::client::IggyClient>,
+    http_addr: Option<String>,
     hl: HashMap<u32, iggy::clients::client::IggyClient>,
     producers: HashMap<u32, iggy::clients::producer::IggyProducer>,
     consumers: HashMap<u32, iggy::clients::consumer::IggyConsumer>,
@@ -333,6 +334,18 @@ pub async fn run() {
         std::process::exit(0);
     }
     let addr = tcp_server::start(server_cfg.tcp.clone(), system.clone()).await;
+    // the HTTP API too (transport `http` of `conn`): tokens are issued on the virtual clock and validated
+    // by the jsonwebtoken crate on the real one, hence the long expiry
+    let http_addr = if get("http", "0") == "1" {
+        let mut hc = server_cfg.http.clone();
+        hc.enabled = true;
+        hc.address = "127.0.0.1:0".to_string();
+        hc.jwt.access_token_expiry =
+            iggy::utils::expiry::IggyExpiry::ExpireDuration(IggyDuration::from_str("1000000h").unwrap());
+        Some(server::http::http_server::start(hc, system.clone()).await.to_string())
+    } else {
+        None
+    };
 
     // a correctly populated MaintainMessagesCommand (its fields are private)
     let (tx, rx) = flume::unbounded::<MaintainMessagesCommand>();
@@ -348,6 +361,7 @@ pub async fn run() {
         system,
         addr: addr.to_string(),
         conns: HashMap::new(),
+        http_addr,
         hl: HashMap::new(),
         producers: HashMap::new(),
         consumers: HashMap::new(),
@@ -474,7 +488,7 @@ impl Lcg {
 }
 
 impl Node {
-    fn c(&self, s: &str) -> Option<&TcpClient> {
+    fn c(&self, s: &str) -> Option<&iggy::clients::client::IggyClient> {
         self.conns.get(&s.parse::<u32>().unwrap())
     }
 
@@ -666,14 +680,28 @@ impl Node {
                 "ok".into()
             }
             "conn" => {
+                use iggy::clients::client::IggyClient;
                 let id: u32 = f[1].parse().unwrap();
+                if f.get(2) == Some(&"http") {
+                    let Some(addr) = &self.http_addr else {
+                        return "err http-not-enabled".into();
+                    };
+                    let cfg = iggy::http::config::HttpClientConfig {
+                        api_url: format!("http://{addr}"),
+                        retries: 0,
+                    };
+                    let client = r!(iggy::http::client::HttpClient::create(Arc::new(cfg)));
+                    self.conns.insert(id, IggyClient::new(Box::new(client)));
+                    return "ok".into();
+                }
                 let mut cfg = TcpClientConfig::default();
                 cfg.server_address = self.addr.clone();
                 cfg.reconnection.enabled = false;
                 cfg.heartbeat_interval = IggyDuration::from_str("1000h").unwrap();
                 let client = r!(TcpClient::create(Arc::new(cfg)));
+                // the transport is connected directly: `IggyClient::connect` would also spawn a heartbeat task
                 r!(client.connect().await);
-                self.conns.insert(id, client);
+                self.conns.insert(id, IggyClient::new(Box::new(client)));
                 "ok".into()
             }
             "close" => {
